@@ -63,6 +63,9 @@ func (w *cborWalker) item(pos int, path string, idx []int, asKey bool) int {
 			if strings.HasPrefix(p, "a") {
 				parts[i] = "a*"
 			}
+			if strings.HasPrefix(p, "n") {
+				parts[i] = "n*"
+			}
 		}
 		return strings.Join(parts, "/")
 	}
@@ -99,11 +102,16 @@ func (w *cborWalker) item(pos int, path string, idx []int, asKey bool) int {
 	case 5:
 		p := next
 		for i := 0; i < int(arg); i++ {
+			// a map with integer keys is a repeated structure (elements "n<i>", grouped like an array)
+			tag := "m"
+			if p < len(w.b) && w.b[p]>>5 <= 1 {
+				tag = "n"
+			}
 			p = w.item(p, fmt.Sprintf("%s/k%d", path, i), idx, true)
 			if p < 0 {
 				return -1
 			}
-			p = w.item(p, fmt.Sprintf("%s/m%d", path, i), idx, false)
+			p = w.item(p, fmt.Sprintf("%s/%s%d", path, tag, i), idx, false)
 			if p < 0 {
 				return -1
 			}
